@@ -19,11 +19,14 @@ def build_driver(build, bufsz, variant="san"):
     return build.harness(variant, "rt_driver%s" % (bufsz or "real"), ["rt_driver.c"], extra=extra)
 
 
-def run_case(exe, casedir, ops, short="-", keep=False, tmpdir=False, fresh=True):
+def run_case(exe, casedir, ops, short="-", keep=False, tmpdir=False, fresh=True, rel=False):
     if fresh and os.path.exists(casedir):
         shutil.rmtree(casedir)
     env = dict(os.environ)
     env.pop("VERIF_TMPDIR", None)
+    env.pop("VERIF_RELTRACE", None)
+    if rel:
+        env["VERIF_RELTRACE"] = "1"
     if tmpdir:
         env["VERIF_TMPDIR"] = tmpdir if isinstance(tmpdir, str) else "1"
     env["ASAN_OPTIONS"] = "detect_leaks=0:abort_on_error=0:exitcode=99"
@@ -517,6 +520,31 @@ def run_c02(prop, tier):
                               {"engine": "E1 rt_driver", "bufsz": 97, "program": proto(prog), "short": sh, "oracle": "C02"},
                               {"kind": "equal-clocks" if sh == "-" else "short-write"})
         ctx.part("equal-clocks-and-short-writes", runs=len(alljobs))
+        # the trace directory is given relative to the working directory (the default "ovni" is) and the program changes its
+        # working directory at some point of its life: still a conformant program
+        cdjobs = []
+        for prog in (["e16", "e0"], ["e16", "e16", "e16", "e0"], ["j60", "f", "e0"]):
+            for pos in range(len(prog) + 1):
+                for t in (False, True):
+                    cdjobs.append((prog[:pos] + ["cd"] + prog[pos:], t))
+            cdjobs.append((prog, False))        # control: relative directory, no chdir
+
+        def one_cd(j):
+            prog, t = j
+            cd = os.path.join(base, "d%d" % os.getpid())
+            rc, err, log = run_case(exe, cd, proto(prog), tmpdir=t, rel=True)
+            msg = oracle(cd, log, rc, err)
+            if msg == "ABORTED":
+                return "the library aborted: %s" % err.strip().split("\n")[-1][:160], None
+            emsg = emu(cd) if msg is None else None
+            return msg, emsg
+        for (prog, t), (msg, emsg) in zip(cdjobs, pmap(one_cd, cdjobs)):
+            ctx.add(evaluations=1, transitions=len(prog) + 2, traces_validated_against_impl=1)
+            if msg is not None or emsg is not None:
+                ctx.violation("B=97 conformant program %s with a relative trace directory%s: %s" % (proto(prog), " (OVNI_TMPDIR)" if t else "", msg or emsg),
+                              {"engine": "E1 rt_driver", "bufsz": 97, "program": proto(prog), "short": "-", "oracle": "C02", "tmpdir": t, "relative": True},
+                              {"kind": "chdir"})
+        ctx.part("working-directory", runs=len(cdjobs))
         # real capacity: (fill before the jumbo) x (jumbo size) where a forced flush happens and the room
         # left afterwards is in [1, 64]
         exe = build_driver(build, None)
